@@ -110,7 +110,7 @@ def gen_case(rng):
         fmt2 = rng.choice([";%d:%d" % (rng.randint(0, 3), rng.randint(0, 3)), ";*", fmt2.split(";")[0]])
     remove = rng.sample(T.FIELDS, rng.randint(0, 2))
     # (... or like another field shown in one of its formats: 'st/val', 'st/name')
-    d_alias = rng.choice([None, None, None, "max(d)", "d(x)", "st/val", "st/name"])
+    d_alias = rng.choice([None, None, None, "max(d)", "d(x)", "st/val", "st/name", "ok!?", "d!x"])
     b_alias = rng.choice([None, None, None, None, "A", "A", ""])      # ('': a caption row with a blank cell)
     if rng.random() < 0.08:
         # a range written the other way round ("name:12-6"): the parser takes it, the table has SOME width for it,
